@@ -160,7 +160,21 @@ pub fn rand_tree(rng: &mut Rng, spec: &TreeSpec, size: usize, scope: &mut Vec<St
         let c = rand_tree(rng, spec, size - 1, scope, scoped);
         HctlTreeNode::mk_unary(c, o)
     } else if r < 6 && !spec.hybops.is_empty() && !spec.vars.is_empty() {
-        let o = rng.pick(&spec.hybops).clone();
+        let mut o = rng.pick(&spec.hybops).clone();
+        if scoped && !rng.chance(1, 30) {
+            // mostly well-scoped: no jump without a variable in scope, no quantifier without a fresh name
+            let has_fresh = spec.vars.iter().any(|v| !scope.contains(v));
+            if matches!(o, HybridOp::Jump) && scope.is_empty() {
+                o = if has_fresh { HybridOp::Bind } else { HybridOp::Jump };
+            }
+            if !matches!(o, HybridOp::Jump) && !has_fresh {
+                if scope.is_empty() {
+                    let c = rand_tree(rng, spec, size - 1, scope, scoped);
+                    return HctlTreeNode::mk_unary(c, UnaryOp::Not);
+                }
+                o = HybridOp::Jump;
+            }
+        }
         if matches!(o, HybridOp::Jump) {
             let x = if scoped && !scope.is_empty() && !rng.chance(1, 40) {
                 rng.pick(scope).clone()
